@@ -85,6 +85,7 @@ FACTOR_VALUES = dict(FACTORS)
 ALWAYS = ("t", "b", "size")          # factors that have no "not given" value
 RARE = {("r", "0"): 0.03, ("r", "rev0"): 0.3}      # values that (nearly) always lead to a refusal
 PREFILL_MAX = 96 << 20
+MKE2FS_TIMEOUT = 150
 
 
 def default_cfg():
@@ -737,8 +738,11 @@ def check_geometry(img, cfg, conf, path, out):
         out["last_rem"] = rem
         out["last_overhead_model"] = ov
         if kept and rem < ov:
-            bad("last-group-too-small-kept", "last group of %d blocks kept although its bookkeeping needs "
+            bad("last-group-kept-too-small", "last group of %d blocks kept although its bookkeeping needs "
                 "%d" % (rem, ov))
+        elif kept and rem < ov + 50:
+            bad("last-group-kept-below-50", "last group of %d blocks kept although it has fewer than 50 "
+                "blocks beyond its bookkeeping (%d); such a group is to be dropped" % (rem, ov))
         if not kept and rem >= ov + 50:
             bad("last-group-dropped", "last group of %d blocks dropped although it has room for its "
                 "bookkeeping (%d) and 50 blocks more" % (rem, ov))
@@ -850,7 +854,7 @@ def evaluate(cfg, conf, path, e2fsck, env, rng):
         # MMP block (the library reads that one without the channel offset)
         target = path + ".fs"
         copy_data_extents(path, target, off)
-    r = run.run([e2fsck, "-fn", target], env=env, timeout=600)
+    r = run.run([e2fsck, "-fn", target], env=env, timeout=300)
     if off:
         os.unlink(target)
     out["fsck_rc"] = r.rc
@@ -947,9 +951,10 @@ def run_case(cfg, conf, tools, env, path, treedir, rng):
     """mke2fs + judgement for one configuration; returns a small result dict"""
     make_device(path, cfg)
     argv = argv_for(cfg, tools["mke2fs"], path, treedir)
-    r = run.run(argv, env=env, timeout=600)
+    r = run.run(argv, env=env, timeout=MKE2FS_TIMEOUT)
     res = {"rc": r.rc, "sig": r.sig, "timed_out": r.timed_out, "wall": round(r.wall, 2)}
     if r.timed_out:
+        res["mke2fs_timeout"] = True
         return res
     if r.rc != 0 or r.sig:
         msg = [l for l in (r.etext or r.text).strip().split("\n") if l.strip()]
@@ -1323,6 +1328,14 @@ def main(tier, seed, replay=None, scale=1.0):
         for i, r in zip(order, run.pmap(_one, [items[i] for i in order])):
             results[i] = r
 
+        # ---- a timeout is inconclusive; an mke2fs that times out again on a re-run is a hang
+        hung = [i for i, r in enumerate(results) if r.get("mke2fs_timeout") and items[i][0] == "c"][:8]
+        for i, r2 in zip(hung, run.pmap(_one, [items[i] for i in hung]) if hung else []):
+            if r2.get("mke2fs_timeout"):
+                results[i]["hang"] = True
+            else:
+                results[i] = r2
+
         # ---- minimise failing configurations so that keys name the distinguishing options
         pending = []        # (item index, (key, line))
         for i, r in enumerate(results):
@@ -1407,6 +1420,11 @@ def main(tier, seed, replay=None, scale=1.0):
             if r.get("harness"):
                 rep.harness_error("case %s%d crashed: %s" % (kind, idx, r["harness"]))
                 rep.case(None)
+                continue
+            if r.get("hang"):
+                rep.case(None)
+                rep.violation("C07 mke2fs-hang", "mke2fs did not finish within %d s, twice: %s" %
+                              (MKE2FS_TIMEOUT, " ".join(case["argv"])), replay=case)
                 continue
             if r.get("timed_out") or r.get("timeout"):
                 rep.note_inconclusive("timeout %s%d %s" % (kind, idx, " ".join(case["argv"][1:])))
